@@ -94,6 +94,37 @@ def main():
                         break
                 if fail:
                     break
+        if a.fn == 'C17':
+            fail = None
+            def prince(args):
+                p = subprocess.run([PY, 'prince_ling.py'] + args, cwd=d, stdin=subprocess.DEVNULL, stdout=subprocess.PIPE,
+                                   stderr=subprocess.DEVNULL, timeout=600)
+                return lines_of(p.stdout.decode('utf-8', 'replace'))
+            big = 6000 if a.tier == 'quick' else 30000
+            ref_p = prince(['-r', 'Default', '-s', str(big)])
+            cases = 1
+            sizes = [1, 9, 5001, 5002, 5003] if a.tier == 'quick' else [1, 2, 9, 100, 5001, 5002, 5003, 5004, 12345, 20011]
+            for flags in ([], ['--all_lower']):
+                base = ref_p if not flags else prince(['-r', 'Default', '-s', str(big)] + flags)
+                for n in sizes:
+                    got = prince(['-r', 'Default', '-s', str(n)] + flags)
+                    cases += 1
+                    samples.append({'args': ['-s', str(n)] + flags, 'lines': len(got)})
+                    if got != base[:n]:
+                        fail = {'program': 'prince_ling.py', 'args': ['-r', 'Default', '-s', str(n)] + flags, 'words_written': len(got),
+                                'expected_words': min(n, len(base))}
+                        break
+                if fail or a.tier == 'quick':
+                    break
+            if fail is None:
+                n = sizes[2]
+                prince(['-r', 'Default', '-s', str(n), '-o', 'prince_out.txt'])
+                with open(os.path.join(d, 'prince_out.txt'), encoding='utf-8') as fh:
+                    in_file = lines_of(fh.read())
+                cases += 1
+                if in_file != ref_p[:n]:
+                    fail = {'program': 'prince_ling.py', 'args': ['-s', str(n), '-o', 'prince_out.txt'], 'what': 'file differs from stdout list',
+                            'file_lines': len(in_file)}
         if fail is None and a.fn == 'C14':
             # flags are taken from the save file on --load (the session file of a fresh run is written at start-up)
             n = 1500
